@@ -659,12 +659,12 @@ fn random_op(rng: &mut Rng, depth: usize, ntab: usize, top: bool) -> Op {
     }
 }
 
-fn random_source(rng: &mut Rng) -> Vec<u8> {
+fn random_source(rng: &mut Rng, small: bool) -> Vec<u8> {
     // mostly short sources; occasionally long ones that cross internal buffer-size boundaries
     let n = match rng.below(60) {
         0 => 4000 + rng.below(300) as usize,
-        1 => 8100 + rng.below(200) as usize,
-        2 => 1 + rng.below(70000) as usize,
+        1 if !small => 8100 + rng.below(200) as usize,
+        2 if !small => 1 + rng.below(70000) as usize,
         _ => rng.below(65) as usize,
     };
     let style = rng.below(4);
@@ -774,7 +774,7 @@ fn shard(ctx: &Ctx, s: usize, n_random: u64, thorough: bool, rep: &mut Report) {
     // --- random histories ---
     let mut rng = Rng::new(ctx.seed ^ 0xC14, s as u64);
     for i in 0..n_random {
-        let src = random_source(&mut rng);
+        let src = random_source(&mut rng, ctx.miri());
         let nops = 20 + rng.below(181) as usize;
         let ops: Vec<Op> = (0..nops).map(|_| random_op(&mut rng, 0, tabs.len(), true)).collect();
         let chunk = 1 + rng.below(5) as usize;
